@@ -182,8 +182,10 @@ Definition sex_centre (t : list bin) (sub : list bin) : Q :=
 
 (* the contract on the two statistics of one chromosome, as a test: when both median tests give a statistic,
    both are non-negative, and the hypothesis with the SMALLER difference of medians (as compare_to_auto computes
-   it) has the smaller statistic -- and when that is the male hypothesis, the female-hypothesis statistic also
-   clears the floor of the denominator.  Vacuous (true) when either test gives no statistic. *)
+   it) has the smaller statistic -- not larger when that is the female hypothesis (the two tests can see the same
+   table: a female sample's chrY lies below the autosomes under either shift); strictly smaller when it is the male
+   hypothesis, and then the female-hypothesis statistic also clears the floor of the denominator.  Vacuous (true) when
+   either test gives no statistic. *)
 Definition stat_contract_b (gstat : mtable -> Q) (auto_l : list Q) (auto_w : option (list Q))
   (vals : list Q) (w : option (list Q)) (female_shift male_shift : Q) : bool :=
   let fv := map (fun x => qadd x female_shift) vals in
@@ -192,7 +194,7 @@ Definition stat_contract_b (gstat : mtable -> Q) (auto_l : list Q) (auto_w : opt
   | Some f, Some m =>
       let fd := med_diff auto_l auto_w fv w in
       let md := med_diff auto_l auto_w mv w in
-      qle_b 0 f && qle_b 0 m && (negb (qlt_b fd md) || qlt_b f m) &&
+      qle_b 0 f && qle_b 0 m && (negb (qlt_b fd md) || qle_b f m) &&
       (negb (qlt_b md fd) || (qlt_b m f && qlt_b lr_denominator_floor f))
   | _, _ => true
   end.
